@@ -136,10 +136,10 @@ def run_scenario(scn: dict, *, eager: bool = False) -> dict:
                 await coro
             except BaseException as exc:
                 st["inop"].discard(t)
-                emit(ev="opend", t=t, op=name, res=res_name(exc), cc=cc(t))
+                emit(ev="opend", t=t, op=name, res=res_name(exc), cc=cc(t), gc=[])
                 raise
             st["inop"].discard(t)
-            emit(ev="opend", t=t, op=name, res="ok", cc=cc(t))
+            emit(ev="opend", t=t, op=name, res="ok", cc=cc(t), gc=[])
 
         async def block() -> bool:
             """Run operations until the matching close (False) or the end of the script (True)."""
@@ -183,6 +183,8 @@ def run_scenario(scn: dict, *, eager: bool = False) -> dict:
                         s.deadline = math.inf if b >= INF else b
                 elif c == "raise":
                     raise _ClientError()
+                elif c == "raisegrp":
+                    raise BaseExceptionGroup("g", [asyncio.CancelledError()])
                 elif c == "probe":
                     emit(ev="probe", t=t, nc=task.cancelling(), effdl=_dl(anyio.current_effective_deadline()),
                          cc=cc(t))
@@ -217,9 +219,18 @@ def run_scenario(scn: dict, *, eager: bool = False) -> dict:
                 ended = await block()
             except BaseException as e:  # noqa: BLE001
                 exc = e
-            if cl and isinstance(exc, asyncio.CancelledError):
+            if cl == 1 and isinstance(exc, asyncio.CancelledError):
                 try:
                     await cancel_shielded_checkpoint()
+                except BaseException as e2:  # noqa: BLE001
+                    exc = e2
+            elif cl == 2 and isinstance(exc, asyncio.CancelledError):
+                # catch the cancellation and wait again WITHOUT a shield: must be interrupted again
+                try:
+                    await aop("rewait", st["event"].wait())
+                except asyncio.CancelledError as e2:
+                    if exc_name(e2) != "cancel":
+                        exc = e2
                 except BaseException as e2:  # noqa: BLE001
                     exc = e2
             called = scope.cancel_called
